@@ -150,6 +150,20 @@ Proof.
   destruct (peer_at_ok s p H) as [_ [Hv _]]. unfold total. cbn. rewrite Hv. reflexivity.
 Qed.
 
+Lemma trim_code_ok : forall cfg s cl, trim_prop cfg s cl = true -> trim_code cfg s cl = 0.
+Proof.
+  intros cfg s cl H. unfold trim_prop in H. unfold trim_code.
+  apply andb_true_iff in H. destruct H as [H H4]. apply andb_true_iff in H. destruct H as [H H3].
+  apply andb_true_iff in H. destruct H as [H1 H2]. rewrite H1, H2, H3, H4. reflexivity.
+Qed.
+
+Lemma force_code_ok : forall cfg s cl, force_prop cfg s cl = true -> force_code cfg s cl = 0.
+Proof.
+  intros cfg s cl H. unfold force_prop in H. unfold force_code.
+  apply andb_true_iff in H. destruct H as [H H4]. apply andb_true_iff in H. destruct H as [H H3].
+  apply andb_true_iff in H. destruct H as [H1 H2]. rewrite H1, H2, H3, H4. reflexivity.
+Qed.
+
 Section WithSort.
   Variable sort : list cand -> list cand.
   Hypothesis sort_perm : forall l, Permutation (sort l) l.
@@ -204,12 +218,12 @@ Section WithSort.
     - destruct o; try discriminate Eo; cbn [step] in Es.
       + (* Trim *)
         pose proof (model_trim_ok_l sort sort_perm sort_sorted cfg s Hinv Hlow) as Hok. rewrite Es in Hok. cbn [snd] in Hok.
-        cbn [o_closed mobs]. rewrite (trim_ok_sound_l _ _ _ Hok). cbn [Z.eqb negb astep].
+        cbn [o_closed mobs]. rewrite (trim_code_ok _ _ _ (trim_ok_sound_l _ _ _ Hok)). cbn [Z.eqb negb astep].
         apply Hfin. destruct (trim_pruned sort sort_perm cfg s Hinv) as [pr [E Hp]]. rewrite Es in E. cbn [fst] in E.
         rewrite E. apply forget_matches; assumption.
       + (* ForceTrim *)
         inversion Es; subst s' cl. cbn [o_closed mobs].
-        rewrite (model_force_ok_l sort sort_perm sort_sorted cfg s Hinv). cbn [Z.eqb negb astep].
+        rewrite (force_code_ok _ _ _ (model_force_ok_l sort sort_perm sort_sorted cfg s Hinv)). cbn [Z.eqb negb astep].
         apply Hfin. reflexivity.
     - pose proof (abs_step sort cfg s o Hinv Eo) as Ha. rewrite Es in Ha. cbn [fst] in Ha.
       destruct o; try discriminate Eo; cbn [Z.eqb negb]; apply Hfin; symmetry; exact Ha.
